@@ -1,6 +1,6 @@
 (* Proofs/BeamspreadPathExamples.v — concrete set-ups for Model/BeamspreadPath.v (C06):
    (1) executions of the path-level model by vm_compute on binary64 floats (the tie
-       examples of .work/prover_C06_TIE.md, replayed against arim);
+       examples of notes/prover_C06_TIE.md, replayed against arim);
    (2) real-number set-ups showing that the hypotheses of the theorems of Props/C06.v can
        be met (non-vacuity).
    No theorem of Props/C06.v depends on the float instance below. *)
